@@ -153,10 +153,18 @@ Definition same_kind (a b : value) : bool :=
   | VDts _, VDts _ | VDtms _, VDtms _ | VIP _, VIP _ => true
   | _, _ => false
   end.
+(* dateTimeSeconds / dateTimeMilliseconds elements take their value through SetUnsigned32Value /
+   SetUnsigned64Value, like unsigned32 / unsigned64 elements: the object keeps its kind *)
+Definition new_val (old v : value) : value :=
+  match old, v with
+  | VDts _, VU32 n => VDts n | VU32 _, VDts n => VU32 n
+  | VDtms _, VU64 n => VDtms n | VU64 _, VDtms n => VU64 n
+  | _, _ => if same_kind old v then v else old
+  end.
 Fixpoint set_nth_val (j : nat) (v : value) (els : list (ie * value)) : list (ie * value) :=
   match els, j with
   | [], _ => []
-  | (e, old) :: r, O => (e, if same_kind old v then v else old) :: r
+  | (e, old) :: r, O => (e, new_val old v) :: r
   | ev :: r, S j' => ev :: set_nth_val j' v r
   end.
 (* what a record that holds the element objects sees afterwards: the new value; its length
